@@ -17,7 +17,11 @@ RULE = ("subsets: every non-empty subset of <= 3 (quick) / <= 4 (thorough) of th
         "generator: lists of 2-8 distinct edges x subgroup size (shapes n/s with at most 35 partitions; a few shapes where s "
         "does not divide n), plus fixed larger requests in generator_big (8/2 = the library test's chain, 9/3; thorough "
         "also 10/5, 8/2, 8/4; at most 280 partitions, well inside the default combination limit of 20000), given to "
-        "construct_allowed_gate_sequences(...).construct_operation_sequences(). Non-trivial = at least two gates "
+        "construct_allowed_gate_sequences(...).construct_operation_sequences(). caller_owned_results: 1-4 generated steps in which "
+        "a caller obtains a list from Surface17Layer (get_neighbors / get_edges / get_parity_group of a qubit, qubit_ids, "
+        "data_qubit_ids, ancilla_qubit_ids) and modifies that list (extends it with another qubit's, clears, reverses, pops, "
+        "duplicates); afterwards all 24 single gates (acceptance + parking of every idle qubit) and up to 28 pairs of gates around "
+        "the touched qubits are judged as in subsets. Non-trivial = at least two gates "
         "(subsets) / at least two steps of at least two gates each (generator); distinct = distinct canonical JSON of "
         "the case (edge order and orientation included).")
 ASSUMPTIONS = [
@@ -33,6 +37,9 @@ ASSUMPTIONS = [
     "every step accepted, required parking of emitted steps follows the parking rule); the number of emitted "
     "sequences vs the number of oracle-valid partitions is recorded as a note, not demanded",
     "requested gates are distinct edges; duplicates in the request are outside the domain",
+    "caller_owned_results: a list computed and returned by an accessor belongs to the caller (the pinned code builds a new list on "
+    "every such call); only list results are modified, accessors returning anything else are skipped; accessors that hand out the "
+    "layout's own containers in the pinned code (edge_ids, parity_group_x/z, get_connected_qubits) are not touched",
 ]
 
 
@@ -70,7 +77,15 @@ def body_subset(case, ctx):
     if disjoint:
         classes.append(f"parked={min(len(exp_park), 6)}")
     ctx.case(case, nontrivial=len(gates) >= 2, classes=classes)
+    check_subset(ctx, gates)
 
+
+def check_subset(ctx, gates):
+    Surface17Layer, get_requires_parking, GateSequenceGenerator, Operation, EdgeIDObj, QubitIDObj = _lib()
+    disjoint = D.qubit_disjoint(gates)
+    exp = D.accepted(gates)
+    idle = [q for q in D.QUBITS if not any(q in g for g in gates)]
+    exp_park = sorted(q for q in idle if D.requires_parking(q, gates)) if disjoint else None
     layer = Surface17Layer()
     got = None
     with ctx.lib("GateSequenceGenerator.get_mutually_allowed"):
@@ -89,6 +104,57 @@ def body_subset(case, ctx):
     if got_park is not None and got_park != exp_park:
         ctx.fail("parking", f"gates {gates}: library requires parking of {got_park}, rule gives {exp_park}",
                  {"gates": gates, "got": got_park, "expected": exp_park})
+
+
+# ---------------------------------------------------------------------------------------------------
+# the verdicts are a function of the gate set alone - also after a caller worked with lists the layout handed out
+# ---------------------------------------------------------------------------------------------------
+TOUCH_APIS = ["get_neighbors", "get_edges", "get_parity_group", "qubit_ids", "data_qubit_ids", "ancilla_qubit_ids"]
+TOUCH_HOW = ["extend_other", "clear", "reverse", "pop", "duplicate"]
+
+
+def strat_touch():
+    from hypothesis import strategies as st
+    touch = st.fixed_dictionaries({"api": st.sampled_from(TOUCH_APIS), "q": st.sampled_from(D.QUBITS),
+                                   "other": st.sampled_from(D.QUBITS), "how": st.sampled_from(TOUCH_HOW)})
+    return st.fixed_dictionaries({"touch": st.lists(touch, min_size=1, max_size=4)})
+
+
+def body_touch(case, ctx):
+    D.validate_against_library()
+    Surface17Layer, get_requires_parking, GateSequenceGenerator, Operation, EdgeIDObj, QubitIDObj = _lib()
+    layer = Surface17Layer()
+    ctx.case(case, nontrivial=any(t["api"] in ("get_neighbors", "get_edges") for t in case["touch"]),
+             classes=[f"api={t['api']}" for t in case["touch"]] + [f"how={t['how']}" for t in case["touch"]])
+
+    def call(api, q):
+        if api.startswith("get_"):
+            return getattr(layer, api)(QubitIDObj(q))
+        return getattr(layer, api)
+
+    for t in case["touch"]:
+        with ctx.lib(f"Surface17Layer.{t['api']}"):
+            mine = call(t["api"], t["q"])
+            if not isinstance(mine, list):
+                continue               # nothing a caller could modify
+            # the caller's own book-keeping on the list it received
+            if t["how"] == "extend_other":
+                mine += call(t["api"], t["other"])
+            elif t["how"] == "clear":
+                mine.clear()
+            elif t["how"] == "reverse":
+                mine.reverse()
+            elif t["how"] == "pop" and mine:
+                mine.pop()
+            elif t["how"] == "duplicate":
+                mine.extend(list(mine))
+    # every single gate (acceptance, parking of all idle qubits) and every pair of gates sharing a plaquette or a qubit
+    for e in D.EDGES:
+        check_subset(ctx, [e])
+    touched = {t["q"] for t in case["touch"]} | {t["other"] for t in case["touch"]}
+    near = [e for e in D.EDGES if set(e) & touched or any(n in touched for q in e for n in D.NEIGHBOURS[q])]
+    for a, b in itertools.combinations(near[:8], 2):
+        check_subset(ctx, [a, b])
 
 
 def items_subsets(tier):
@@ -291,6 +357,7 @@ def parts():
     return [
         Part("subsets", body_subset, items=items_subsets, exhaustive=True),
         Part("large_subsets", body_subset, strategy=strat_large, quick=500, thorough=3000),
+        Part("caller_owned_results", body_touch, strategy=strat_touch, quick=30, thorough=300),
         Part("generator", body_generator, strategy=strat_generator, quick=45, thorough=200),
         Part("generator_big", body_generator, items=items_generator_big),
     ]
